@@ -30,7 +30,7 @@ def check_labels(ctx, labels, T, W, K, what, case):
 def run(ctx):
     from fast_ticc import data_preparation as dp
     rng = np.random.default_rng(ctx.seed)
-    ctx.proof_layer(allowed_axioms=(), coq_deps=["Corr/RunStacking"], gen=["data_preparation", "front_single", "main_loop_suffix"])
+    ctx.proof_layer(allowed_axioms=(), coq_deps=["Corr/RunStacking"], gen=["data_preparation", "front_single", "main_loop_suffix", "main_loop_full"])
     core.note_drift(ctx, ANCHORS)
     cov = core.LineCoverage()
     single, joint = [], []
